@@ -232,6 +232,7 @@ def main(argv=None):
 
     # 3. judge
     n_conf = 0
+    n_vacuous = [0]
     nontrivial = 0
     samples = []
     validated = 0
@@ -251,6 +252,9 @@ def main(argv=None):
                 n_conf += 1
                 if res["paths"] >= 2 and len([t for t, n in res["tags"].items() if n]) >= 2:
                     nontrivial += 1
+        elif res["state"] == "PRE_UNSAT" and c.get("allow_vacuous"):
+            n_conf += 1
+            n_vacuous[0] += 1
         elif res["state"] == "REFUTED":
             cex_n += 1
             rp = os.path.join(replay_dir, "%s-%d.json" % (prop, cex_n))
@@ -352,6 +356,7 @@ def main(argv=None):
             "solver_seconds": round(sum(r.get("solver_s", 0.0) for r in allres), 1),
             "cpu_seconds_symbolic": round(sum(r.get("wall_s", 0.0) for r in allres), 1),
             "witness_twins": {"run": len(witnesses), "replayed_ok": validated},
+            "conditions_with_unsatisfiable_documented_precondition": n_vacuous[0],
             "known_findings_announced": known_lines,
             "inconclusive": problems[:50],
             "preflight": pre_info,
